@@ -3,6 +3,7 @@ package c18
 
 import (
 	"fmt"
+	"io"
 	"testing"
 	"time"
 
@@ -16,6 +17,7 @@ import (
 
 	"verif/internal/canon"
 	"verif/internal/gx"
+	"verif/internal/vet"
 	"verif/internal/vrt"
 	"verif/internal/wx"
 )
@@ -383,8 +385,51 @@ func Run(cs Case, c *vrt.Ctx) {
 			if !canon.Same(x, y) {
 				c.Fail("gen-parser-differs", "gen.Parser", fmt.Sprintf("Generify(oj.Parse)=%s gen.Parse=%s on %s", clip(canon.String(x, canon.Typed)), clip(canon.String(y, canon.Typed)), clip(text)))
 			}
+			// the same through the reader entry point, however the text arrives (1, 2, 3, 5 and 7
+			// byte reads put every token boundary and every string start on a chunk end), also
+			// for the indented text and on a parser that has read other documents before
+			for _, txt := range []string{text, oj.JSON(tree, &ojg.Options{Sort: true, Indent: 2})} {
+				for _, size := range []int{1, 2, 3, 5, 7} {
+					gr := &gen.Parser{}
+					if size == 3 {
+						gr = vet.GenParser()
+					}
+					rv, rerr := gr.ParseReader(&sizedReader{data: []byte(txt), size: size})
+					var z any
+					if rv != nil {
+						z = rv
+					}
+					if rerr != nil {
+						c.Fail("parser-error-differs", "gen.Parser.ParseReader", fmt.Sprintf("%d byte reads: %v on %s", size, rerr, clip(txt)))
+					} else if !canon.Same(x, z) {
+						c.Fail("gen-parser-differs", "gen.Parser.ParseReader", fmt.Sprintf("%d byte reads: Generify(oj.Parse)=%s gen.ParseReader=%s on %s", size, clip(canon.String(x, canon.Typed)), clip(canon.String(z, canon.Typed)), clip(txt)))
+					}
+				}
+			}
 		}
 	}
+}
+
+// sizedReader hands out its data in reads of a fixed size.
+type sizedReader struct {
+	data []byte
+	size int
+}
+
+func (r *sizedReader) Read(p []byte) (int, error) {
+	if len(r.data) == 0 {
+		return 0, io.EOF
+	}
+	n := r.size
+	if len(p) < n {
+		n = len(p)
+	}
+	if len(r.data) < n {
+		n = len(r.data)
+	}
+	copy(p, r.data[:n])
+	r.data = r.data[n:]
+	return n, nil
 }
 
 func clip(s string) string {
